@@ -608,6 +608,41 @@ def has_symlinked_ancestor(pre_snap, entries):
     return False
 
 
+def simple_links(pre_snap, entries):
+    """every symlink met on the way to an entry (or under a directory entry) leads, without passing another link, to a
+    directory that is neither above nor below the link itself: the plain `usr/lib -> lib64` situation.  The direct
+    oracles for symlinked-ancestor cases only judge those; self-referential or chained links alias entries with each
+    other (or with the link) in ways for which "its location" has no stable meaning."""
+    for e in entries:
+        p = tuple(e["p"])
+        for i in range(1, len(p) + 1):
+            link = p[:i]
+            nd = pre_snap.get(link)
+            if nd is None or nd["k"] != "sym":
+                continue
+            if i == len(p) and e["k"] != "dir":
+                continue                      # the entry replaces the link itself
+            t = nd["target"]
+            if t.startswith("/"):
+                return False
+            cur = link[:-1]
+            for c in t.split("/"):
+                here = pre_snap.get(cur)
+                if here is None or here["k"] != "dir":
+                    return False
+                if c in ("", "."):
+                    continue
+                cur = cur[:-1] if c == ".." else cur + (c,)
+                if c == ".." and not cur and link[:-1] == ():
+                    return False
+            tgt = pre_snap.get(cur)
+            if tgt is None or tgt["k"] != "dir":
+                return False
+            if link[: len(cur)] == cur or cur[: len(link)] == link:
+                return False                  # points at itself, above itself or below itself
+    return True
+
+
 def classify_exc(e):
     from pkgcore.fs import ops
     if e is None:
@@ -863,12 +898,16 @@ def run(ctx):
             if pre is None and not off:
                 off = True
             r = run_case(sb, pre, ents, off)
-            r["oracle"] = python_oracle(sb, r["pre"], r["post"], ents, r["rels"]) if r["exc"] is None else []
+            r["literal"] = not has_symlinked_ancestor(r["pre"], ents)
+            r["oracle"] = []
+            if r["exc"] is None and not r["literal"]:
+                # literal cases are judged by the Lean specification; the direct oracle is for the rest
+                r["oracle"] = python_oracle(sb, r["pre"], r["post"], ents, r["rels"]) if simple_links(r["pre"], ents) else None
             if r["oracle"] is None:
                 r["oracle"] = []
                 r["aliased"] = True
-            dir_on_link = any(e["k"] == "dir" and r["pre"].get(tuple(e["p"]), {}).get("k") == "sym" for e in ents)
-            if r["exc"] is None and not has_symlinked_ancestor(r["pre"], ents) and not dir_on_link:
+            no_links = not any(nd["k"] == "sym" for nd in r["pre"].values()) and not any(e["k"] == "sym" for e in ents)
+            if r["exc"] is None and r["literal"] and no_links:
                 # leaf directories (no entry created inside) carry the recorded mtime
                 for e in ents:
                     if e["k"] == "dir" and not any(x["p"][: len(e["p"])] == e["p"] and x is not e for x in ents):
@@ -903,7 +942,7 @@ def run(ctx):
         ctx.count("entries_%d" % min(len(ents), 9))
         ctx.count("literal" if literal else "symlinked_ancestor")
         if r.get("aliased"):
-            ctx.count("entries_aliased_through_symlinked_dir_not_claimed")
+            ctx.count("symlinked_case_with_aliasing_or_complex_links_not_claimed")
         ctx.count("offset" if off else "no_offset")
         for e in ents:
             ctx.count("entry_" + e["k"] + ("_over_" + r["pre"][tuple(e["p"])]["k"] if tuple(e["p"]) in r["pre"] else "_new"))
